@@ -8,7 +8,7 @@
    16-bit limit of the wire format, batches any length.  The AEAD of an encrypted
    session is an arbitrary pair seal/open with open n (seal n m) = Some m. *)
 From Coq Require Import List NArith Arith Bool Lia.
-From AHK Require Import Lib.Res Lib.ByteStr Model.Pdu Proofs.PduBle Proofs.PduCoap Proofs.PduSession.
+From AHK Require Import Lib.Res Lib.ByteStr Model.Pdu Model.PduLink Proofs.PduBle Proofs.PduCoap Proofs.PduSession Proofs.PduLink.
 Import ListNotations.
 
 (* ------------------------------------------------------------------ BLE requests *)
@@ -41,6 +41,37 @@ Theorem ble_reassemble_encrypted : forall seal open,
       /\ Forall (fun f => length f <= fs) frs
       /\ forall k, (forall n m, length (seal n m) = length m + k) -> Forall (fun w => length w <= fs + k) ws.
 Proof. exact ble_write_ok. Qed.
+
+(* ------------------------------------------------------------------ BLE: the GATT link (round 9)
+   write_gatt_char is a suspension point: the payload of a call reaches the characteristic
+   lat ticks after the call was started and the link does not order calls in flight together
+   (Model/PduLink.v).  _write_pdu awaits every write before it starts the next one
+   (issue_seq): for EVERY latency assignment - one per GATT write, any values - the
+   characteristic receives exactly the sealed fragments in program order, so the accessory
+   opens them under consecutive nonces and reassembles opcode, tid, iid and body. *)
+Theorem ble_fragments_arrive_in_order : forall seal open,
+    (forall n m, open n (seal n m) = Some m) ->
+    forall fs op tid iid data ctr,
+    8 <= fs -> (op < 256)%N -> (tid < 256)%N -> (iid < 65536)%N -> (N.of_nat (length data) < 65536)%N ->
+    exists ws frs,
+      ble_write seal ctr fs op tid iid data = Ok (ws, (ctr + N.of_nat (length ws))%N)
+      /\ forall t lats, length lats = length ws ->
+           ble_write_arrival seal ctr fs op tid iid data t lats = Ok ws
+           /\ open_seq open ctr ws = Some frs
+           /\ acc_reassemble frs = Some (op, tid, iid, data)
+           /\ Forall (fun f => length f <= fs) frs.
+Proof. exact ble_write_arrival_ok. Qed.
+
+(* the link-level fact it rests on: sequentially awaited calls arrive in program order whatever
+   their latencies ... *)
+Theorem link_sequential_in_order : forall ws t, arrival (issue_seq t ws) = map snd ws.
+Proof. exact arrival_seq. Qed.
+
+(* ... whereas two calls started together (asyncio.gather) are overtaken by the faster one:
+   the per-fragment await is what orders the fragments, not the link *)
+Theorem ble_concurrent_fragments_overtake : forall t l1 l2 w1 w2, l2 < l1 ->
+    arrival (issue_par t [(l1, w1); (l2, w2)]) = [w2; w1].
+Proof. exact arrival_par_overtake. Qed.
 
 (* the negotiated size on a connection: with ATT budget B = mtu - 3 (or the backend's larger
    max_write_without_response_size) every GATT write - plain, or sealed with a 16-byte tag
@@ -308,9 +339,26 @@ Example c17_session_nonvacuous :
      = Ok (map (fun r => ans_outcome (demo_responder (breq_core r))) reqs, (53%N, 99%N), (53%N, 99%N)).
 Proof. cbv zeta. split; [exact demo_responder_ok|vm_compute; reflexivity]. Qed.
 
+(* the link model at work: a 100-byte request at fs = 20 (6 fragments) under the toy AEAD over a
+   link whose latency FALLS with every write (5,4,3,2,1,0 ticks): awaited one by one the six
+   writes arrive in order and reassemble; the same six calls started together arrive reversed,
+   the first does not open under the accessory's next nonce *)
+Example c17_link_nonvacuous :
+  let lats := [5; 4; 3; 2; 1; 0] in
+  exists ws, ble_write toy_seal 9 20 2 77 300 ex_body = Ok (ws, 15%N)
+    /\ ble_write_arrival toy_seal 9 20 2 77 300 ex_body 0 lats = Ok ws
+    /\ arrival (issue_par 0 (combine lats ws)) = rev ws
+    /\ open_seq toy_open 9 (rev ws) = None
+    /\ (match open_seq toy_open 9 ws with Some frs => acc_reassemble frs | None => None end)
+       = Some (2%N, 77%N, 300%N, ex_body).
+Proof. cbv zeta. eexists. split; [vm_compute; reflexivity|]. repeat split; vm_compute; reflexivity. Qed.
+
 Print Assumptions ble_frag_size.
 Print Assumptions ble_reassemble.
 Print Assumptions ble_reassemble_encrypted.
+Print Assumptions ble_fragments_arrive_in_order.
+Print Assumptions link_sequential_in_order.
+Print Assumptions ble_concurrent_fragments_overtake.
 Print Assumptions ble_negotiated_size.
 Print Assumptions ble_out_of_range.
 Print Assumptions ble_response_any_fragmentation.
